@@ -53,8 +53,8 @@ Definition pHeader : P header :=
        (pPair (pOpt pFaddr) (pPair (pOpt pFaddr) (pPair (pOpt pN) (pPair (pOpt pN) (pPair (pOpt pB) pCls))))).
 
 Definition pFilt : P filt :=
-  pMap (fun x => match x with (c, (s, e)) => {| f_ctrl := c; f_sel := s; f_elems := e |} end)
-       (pPair (pOpt (pPair pB pB)) (pPair (pOpt (pOpt pN)) (pOpt pB))).
+  pMap (fun x => match x with (c, (s, (e, (fs, fe)))) => {| f_ctrl := c; f_sel := s; f_elems := e; f_fsel := fs; f_felems := fe |} end)
+       (pPair (pOpt (pPair pB pB)) (pPair (pOpt (pOpt pN)) (pPair (pOpt pB) (pPair pB pB)))).
 
 Definition pRegreq : P regreq :=
   pMap (fun x => match x with (c, (s, t)) => {| rq_cli := c; rq_srv := s; rq_type := t |} end)
